@@ -1,7 +1,7 @@
 """C04 - argparse-function round trip."""
 from vf.props import rt_props
 
-KEYS = ["vf.contracts.laws:argparse_function_roundtrip", "vf.contracts.laws:argparse_option_roundtrip", "doctrans.parse:argparse_ast", "doctrans.ast_utils:param2argparse_param", "doctrans.emitter_utils:parse_out_param", "doctrans.emit:argparse_function", "doctrans.emitter_utils:_handle_keyword", "doctrans.ast_utils:infer_type_and_default", "doctrans.ast_utils:_parse_node_for_arg", "doctrans.ast_utils:set_value", "doctrans.emitter_utils:get_internal_body", "doctrans.defaults_utils:set_default_doc",
+KEYS = ["vf.contracts.laws:argparse_function_roundtrip", "vf.contracts.laws:argparse_function_roundtrip_documented", "vf.contracts.laws:argparse_option_roundtrip", "doctrans.parse:argparse_ast", "doctrans.ast_utils:param2argparse_param", "doctrans.emitter_utils:parse_out_param", "doctrans.emit:argparse_function", "doctrans.emitter_utils:_handle_keyword", "doctrans.ast_utils:infer_type_and_default", "doctrans.ast_utils:_parse_node_for_arg", "doctrans.ast_utils:set_value", "doctrans.emitter_utils:get_internal_body", "doctrans.defaults_utils:set_default_doc",
         "doctrans.pure_utils:code_quoted"]
 
 
